@@ -183,7 +183,7 @@ def decide(prop, mod, results, tier, seed, wall):
             for fl in en["failures"]:
                 hit = None
                 for kid, kf_ in open_ids.items():
-                    if kf_.get("obligation") == en["name"]:
+                    if kf_.get("obligation") == en["name"] or en["name"] in kf_.get("also_obligations", ()):
                         w = getattr(mod, "WITNESSES", {}).get(kf_.get("witness"))
                         try:
                             if w is not None and w(fl["model"]):
